@@ -65,7 +65,7 @@ func main() {
 	files = append(files, sub...)
 	sort.Strings(files)
 	tests := map[string]*perTest{}
-	var samples []json.RawMessage
+	samples := []json.RawMessage{} // (never null in the evidence file)
 	problems := []string{}
 	for _, f := range files {
 		b, err := os.ReadFile(f)
